@@ -300,7 +300,22 @@ func judge(out *pipe.Outcome, ix *pipe.Index) pipe.Verdict {
 				if !allOpen {
 					v.Stats["stops_during_start_up_not_judged"]++
 				}
-				if c.err != "" && keptWorking && allOpen && !strings.Contains(c.err, "already triggered") && !strings.Contains(c.err, "stop already") {
+				// ... and a run that is failing at that very moment (its sources may have
+				// ended already while late acks of the other source are still delivered)
+				failing := false
+				upTo := live.tear
+				if upTo < 0 || upTo >= len(evs) {
+					upTo = len(evs) - 1
+				}
+				for q := c.ctl; q <= upTo; q++ {
+					if evs[q].Kind == rig.KFailure || evs[q].Kind == rig.KNote && strings.Contains(evs[q].Note, "run fails") {
+						failing = true
+					}
+				}
+				if failing {
+					v.Stats["stops_refused_by_a_failing_run_not_judged"]++
+				}
+				if c.err != "" && keptWorking && allOpen && !failing && !strings.Contains(c.err, "already triggered") && !strings.Contains(c.err, "stop already") {
 					add("stop-refused-on-live-run", fmt.Sprintf("%s at event %d: the pipeline is reported Running and its run (source session opened at %d) is live, yet the call returned %q", c.op, c.ctl, live.open, c.err), live.open, c.ctl, c.ret)
 				}
 			}
